@@ -16,7 +16,7 @@ RULE = ('complete enumeration per operation: tensordot over (order pair, mode, n
 ASSUMPTIONS = ['numpy.tensordot / reshape / kron semantics are the reference',
                'complete contraction over both operands with both outer ranks != 1: library orientation (self, other) '
                'accepted, values checked (undocumented case)',
-               'tt2qtt with threshold 0 (exact)', 'squeeze needs a mode > 1 and boundary ranks 1 (D1, D6)']
+               'tt2qtt with threshold 0 (exact) and 1e-13 (negligible)', 'squeeze needs a mode > 1 and boundary ranks 1 (D1, D6)']
 CHUNK = {'quick': 64, 'thorough': 128}
 TOL = 1e-10
 MODES = ['last-first', 'last-last', 'first-last', 'first-first']
@@ -402,6 +402,15 @@ def run_qtt(case, r, rng):
                                list(B.col_dims) == [s[1] for s in sites], 'dims %s %s' % (B.row_dims, B.col_dims))
                         if list(B.row_dims) == [s[0] for s in sites] and list(B.col_dims) == [s[1] for s in sites]:
                             r.close('qtt2tt:roundtrip:value', dn(B), a, TOL)
+        r.true('tt2qtt:self-unchanged', unchanged(A, sA))
+    # a negligible relative threshold removes rounding-level singular directions only: same tensor, ranks not larger
+    with r.op('tt2qtt:threshold:call'):
+        T2 = A.tt2qtt([list(x) for x in RM], [list(x) for x in CN], threshold=1e-13)
+        mp = meta_problem(T2)
+        if r.true('tt2qtt:threshold:meta', mp is None, mp) and r.true('tt2qtt:threshold:dims', list(T2.row_dims) == flat_r and list(T2.col_dims) == flat_c):
+            r.close('tt2qtt:threshold:value', dn(T2), want, 1e-9, 'threshold=1e-13')
+            if mp is None and meta_problem(T) is None:
+                r.true('tt2qtt:threshold:ranks', all(x <= y for x, y in zip(T2.ranks, T.ranks)), 'ranks %s with threshold, %s without' % (T2.ranks, T.ranks))
         r.true('tt2qtt:self-unchanged', unchanged(A, sA))
     return r
 
